@@ -737,4 +737,20 @@ def judge(ln):
     vert_pts = set()
     for t in tris: vert_pts.update(t)
     rf = (A[cs.next], A[cs.next + 1]) if refine else None
-    return combine([judge_candidate(cs, c, tris, vert_pts, rf) for c in cs.cands])
+    v = combine([judge_candidate(cs, c, tris, vert_pts, rf) for c in cs.cands])
+    return small_feature_key(cs, v)
+
+def small_feature_key(cs, v):
+    """a failure on a polygon one of whose edges is shorter than 1 cm gets the sub-key `:sub-cm-feature`: features of that size
+    are below the resolution of the crate's absolute tolerances (|ab x bc| < 1e-5 m2 counts as collinear: every corner of a
+    hole with 3 mm edges does), a family of failures recorded as one known finding; the same failure on a polygon without such
+    features keeps its plain key"""
+    if v[0] != 'fail' or v[1].endswith('-small') or cs.f32: return v          # tolerance-level keys and the f32 build are findings of their own
+    sc = cs.sc
+    lim = sc.r2(Fraction(1, 100))
+    for pts in [cs.outer_in] + cs.holes_in:
+        n = len(pts)
+        for k in range(n):
+            if n23(sub3(pts[(k + 1) % n], pts[k])) < lim:
+                return ('fail', v[1] + ':sub-cm-feature', (v[2] if len(v) > 2 else v[1]) + ' [the polygon has an edge shorter than 1 cm]')
+    return v
